@@ -98,4 +98,19 @@ PROPS = {
                 "adjacent to D; reference file with IUPAC codes / lower case now and then; --skip-insertions, --omit-reference, --start/--end, --wrap, threads; "
                 "sam.ToPairAlign in-process in directory mode, files read back in query order",
     },
+    "C11": {
+        "streams": {"C11": (450, 8000)},
+        "thorough_seeds": 3,
+        "rule": "SAM files as C02 (non-conflicting records, 0-5 insertions) with a GenBank or GFF annotation of the same reference, reference from file or from "
+                "the annotation, --append-snps, windows; a third: sam.Variants against model and spec; a third: sam.Variants vs variants.Variants on every file "
+                "written by the real sam.ToPairAlign; a third (queries without insertions): vs variants.Variants on reference + the real toMultiAlign --pad rows",
+    },
+    "C15": {
+        "streams": {"C15v": (300, 5000), "C15toma": (300, 5000), "C15topa": (300, 5000)},
+        "thorough_seeds": 3,
+        "cli": True,
+        "rule": "variants: windows (start alone, end alone, both) against model/spec, and file vs 'stdin' on the real code; toMultiAlign: every window against the "
+                "slice specification, legacy --trim/--trimstart/--trimend vs --start/--end through the gofasta binary, --wrap w (1..L+2) un-wrapped vs unwrapped; "
+                "toPairAlign: windows through the gapped reference row, --wrap; non-trivial = a window, a wrap width or a relation is exercised",
+    },
 }
